@@ -163,6 +163,15 @@ impl PartialEq for RistrettoPoint {
     }
 }
 impl Eq for RistrettoPoint {}
+impl subtle::ConditionallySelectable for RistrettoPoint {
+    fn conditional_select(a: &RistrettoPoint, b: &RistrettoPoint, choice: Choice) -> RistrettoPoint {
+        if choice.unwrap_u8() == 1 {
+            *b
+        } else {
+            *a
+        }
+    }
+}
 impl Zeroize for RistrettoPoint {
     fn zeroize(&mut self) {
         self.0 = 0;
